@@ -478,4 +478,7 @@ class PC(StructureEstimator):
                 undirected_edges.append((u, v))
             else:
                 directed_edges.append((u, v))
-        return PDAG(directed_ebunch=directed_edges, undirected_ebunch=undirected_edges)
+        result = PDAG(directed_ebunch=directed_edges, undirected_ebunch=undirected_edges)
+        # variables without any remaining edge are still part of the pattern
+        result.add_nodes_from(skeleton.nodes())
+        return result
